@@ -17,7 +17,7 @@ RULES = {
     'C06.R4': 'the cached-state arms perform no mutation of the tree (a second run changes nothing)',
     'C06.R6': 'no function of the elimination (infeasible_elimination and the AffTree methods it reaches) resets a stored verdict to Indeterminate or borrows it mutably',
 }
-FLOORS = {'C06.R9': 2, 'C06.R8': 15, 'C06.R7': 8, 'C06.R1': 4, 'C06.R2': 3, 'C06.R3': 1, 'C06.R4': 2, 'C06.R5': 12, 'C06.R6': 4}
+FLOORS = {'C06.R9': 5, 'C06.R8': 15, 'C06.R7': 8, 'C06.R1': 4, 'C06.R2': 3, 'C06.R3': 1, 'C06.R4': 2, 'C06.R5': 12, 'C06.R6': 4}
 EXPLANATION = 'Must-classify / must-remove / must-forward path rules over the traversal loop of infeasible_elimination.'
 DOES_NOT_DECIDE = 'emptiness itself (the LP answer, C10); terminal-count bounds for distilled networks'
 CACHED = {'Infeasible', 'Feasible', 'FeasibleWitness'}
